@@ -21,7 +21,7 @@ var c18Features = []c18Feature{
 	{"role", []string{"none", "presentation", "grid", "treegrid", "main", "other", "rowgroup", "columnheader"}},
 	{"drole", []string{"none", "row", "navigation", "other"}},
 	{"datatable", []string{"absent", "0", "1"}},
-	{"nested", []string{"no", "yes"}},
+	{"nested", []string{"no", "yes", "yes-role-main", "yes-role-search"}},
 	{"shape", []string{"3x4", "1x2", "2x1", "2x2", "2x4", "2x5", "4+4+2", "4+4+3", "19x2", "20x2", "20x1+4x2", "19x1+5x2", "1+2+2", "2x1+1x5"}},
 	{"header", []string{"none", "caption", "thead", "tfoot", "colgroup", "col", "th", "caption-empty", "th-empty", "colgroup+th-empty", "col+th-empty", "th-empty-then-th", "caption-empty+thead", "caption-empty+col", "th-empty+tfoot"}},
 	{"cell", []string{"none", "abbr-attr", "headers-attr", "scope-attr", "abbr-lone", "abbr-plus"}},
@@ -29,7 +29,7 @@ var c18Features = []c18Feature{
 	{"embedded", []string{"none", "embed", "object", "applet", "iframe"}},
 }
 
-var c18Contexts = []string{"body", "div", "li", "blockquote", "layout-cell", "after-abbr-table", "after-summary-table", "after-5col-table", "after-20row-table", "after-th-table", "after-layout-table"}
+var c18Contexts = []string{"body", "div", "li", "blockquote", "layout-cell", "editable-two", "editable-two-nested-wrapper", "after-abbr-table", "after-summary-table", "after-5col-table", "after-20row-table", "after-th-table", "after-layout-table"}
 
 func c18Rows(shape string) []int {
 	rep := func(n, c int) []int {
@@ -159,8 +159,14 @@ func c18Table(v []int, t *ora.Tok) string {
 				content += "<button>zprobe</button>"
 			}
 			if cellIdx == 2 && total > 2 || (total <= 2 && cellIdx == 1) {
-				if f(4) == "yes" {
+				switch f(4) {
+				case "yes":
 					content += "<table><tr><td>" + t.W(1) + "</td></tr></table>"
+				case "yes-role-main":
+					// a landmark role on the nested table element itself: it is a descendant of the outer table
+					content += "<table role=\"main\"><tr><td>" + t.W(1) + "</td></tr></table>"
+				case "yes-role-search":
+					content += "<table role=\"Search\"><tr><td>" + t.W(1) + "</td></tr></table>"
 				}
 				switch f(9) {
 				case "embed":
@@ -219,6 +225,11 @@ func c18Doc(v []int, ctx string) string {
 		return sb.String()
 	}
 	switch ctx {
+	case "editable-two":
+		// a second table in one editable area, sharing a wrapper with the first
+		tbl = "<div contenteditable=\"true\"><div class=\"w\">" + pre("", "<th>x0y</th>", 3, 2) + "<p>" + t.W(21) + "</p><p>" + t.W(22) + "</p>" + tbl + "</div></div>"
+	case "editable-two-nested-wrapper":
+		tbl = "<div contenteditable=\"true\"><section><div>" + pre("", "", 2, 2) + "</div><p>" + t.W(21) + "</p><div><div>" + tbl + "</div></div></section></div>"
 	case "after-abbr-table":
 		tbl = pre("", "<td abbr=\"a\">x0y</td>", 2, 2) + "<p>" + t.W(21) + "</p><p>" + t.W(22) + "</p>" + tbl
 	case "after-summary-table":
@@ -558,7 +569,7 @@ func init() {
 	eng.Register(&eng.Prop{
 		ID:        "C18",
 		DesignRef: "§5 C18",
-		Rule: "feature vectors editable{2} x table role{8} x descendant role{4} x datatable{3} x nested{2} x shape{14: 3x4,1x2,2x1,2x2,2x4,2x5,4+4+2,4+4+3,19x2,20x2, 20 one-cell rows + 4 two-cell rows, 19+5, ragged 1+2+2, 1+1+5} x header{15} x cell feature{6} x summary{2} x embedded{5} (4.8e6 vectors); " +
+		Rule: "feature vectors editable{2} x table role{8} x descendant role{4} x datatable{3} x nested{4: none, plain, nested table carrying a landmark role} x shape{14: 3x4,1x2,2x1,2x2,2x4,2x5,4+4+2,4+4+3,19x2,20x2, 20 one-cell rows + 4 two-cell rows, 19+5, ragged 1+2+2, 1+1+5} x header{15} x cell feature{6} x summary{2} x embedded{5} (9.7e6 vectors); " +
 			"quick: every vector with <= 3 features off the default in body and <= 2 in {div, li, blockquote, layout-table cell, after an earlier table that is data by a cell attribute / summary / 5 columns / 20 rows / th, after an earlier layout table}; thorough: all vectors in body and <= 3 deviations in the other contexts. Each vector is rendered as a table after two content paragraphs. " +
 			"Oracle: the statement's 14-rule decision list evaluated on the parsed table vs. observation through the public API (a form-control probe in the first cell survives, inside a <table> together with the first and last cell words, iff the table was preserved as data). Vectors whose verdict depends on whether <th> counts as a cell, and empty caption/th, are observe-only. " +
 			"Non-trivial = >= 2 rule-relevant features set, or a threshold shape.",
